@@ -46,7 +46,7 @@ def error_admissible(err, causes, ridx, prog):
     from ml_pipeline_engine.dag.errors import (OneOfDoesNotHaveResultError,
                                                RecurrentSubgraphDoesNotHaveResultError)
     rec = ridx.get(id(err))
-    if rec is not None and isinstance(err, (rt.Boom, rt.Fatal)):
+    if rec is not None and isinstance(err, (rt.Boom, rt.Fatal, rt.ECancel)):
         for c in causes:
             if c[0] in ('boom', 'fatal') and c[1] == rec['node'] and c[2] == rec['attempt']:
                 return True, 'boom'
@@ -85,7 +85,10 @@ def check_outcome(obs, ro, ref, cancelled=False):
             return out
     if ro.outcome == 'raised':
         e = ro.raised
-        if isinstance(e, asyncio.CancelledError):
+        if isinstance(e, asyncio.CancelledError) and exp[0] in ('raised', 'error') \
+                and any(c[0] == 'fatal' and c[3] == 'ECancel' for c in exp[1]):
+            pass        # a node body ended with CancelledError itself: propagated like any BaseException
+        elif isinstance(e, asyncio.CancelledError):
             out.append(F(['C05'], 'cancelled_escaped', exp=exp[0]))
         elif isinstance(e, Exception):
             out.append(F(['C05'], 'run_raised_exception', exc=_short(e), exp=exp[0]))
